@@ -409,7 +409,7 @@ def _build(ck):
         # the leaf shapes of the rewritten operator's output structure with those of its own input structure and refuses
         # otherwise (repair of finding C14-ellipsis-broadcasts-input: einsum broadcasts `...` of the blocks)
         S.oblige('post', log.get('outs_t_calls', 0) >= 1 and log.get('outs_t_of') is t,
-                 tag='struct:the-output-structure-of-the-rewritten-operator-is-inspected')
+                 tag='struct:the-output-structure-of-the-rewritten-operator-is-inspected', shape=True)
         S.oblige('post', same_shapes, tag='struct:shapes-of-outs(o.T)==shapes-of-ins(o)', oracle={'name': 'broadcast_input'})
     ck.explore(f'{CLS}.transpose', transpose, T)
 
